@@ -27,6 +27,7 @@ type G struct {
 	entry   string
 	parkSeq int
 	daemon  bool // harness helper: not counted for leaks
+	serverConn bool // goroutine standing for the HTTP server serving an upgraded connection
 }
 
 type Op struct {
@@ -44,6 +45,9 @@ type Op struct {
 	ch     *Chan
 	isSend bool
 	sendV  Value
+	isSleep bool
+	waitStep bool
+	isQuiesce bool
 }
 
 type selCase struct {
@@ -202,60 +206,93 @@ func (g *G) schedPoint(op *Op) {
 	g.op = nil
 }
 
-func (r *Run) enabledGs(except *G) []*G {
-	var out []*G
-	for _, x := range r.gs {
-		if x.done || x == except || x.op == nil {
-			continue
-		}
-		if x.op.completed || x.op.enabled() {
-			out = append(out, x)
+func (r *Run) isEnabled(x *G) bool {
+	return !x.done && x.op != nil && (x.op.completed || x.op.enabled())
+}
+
+// refreshRunq keeps a FIFO of runnable goroutines: goroutines that became
+// enabled are appended (in id order), blocked or finished ones are dropped.
+func (r *Run) refreshRunq() {
+	var keep []*G
+	in := map[*G]bool{}
+	for _, x := range r.runq {
+		if r.isEnabled(x) {
+			keep = append(keep, x)
+			in[x] = true
 		}
 	}
-	sort.Slice(out, func(i, j int) bool { return out[i].id < out[j].id })
-	return out
+	var fresh []*G
+	for _, x := range r.gs {
+		if !in[x] && r.isEnabled(x) {
+			fresh = append(fresh, x)
+		}
+	}
+	sort.Slice(fresh, func(i, j int) bool { return fresh[i].id < fresh[j].id })
+	r.runq = append(keep, fresh...)
 }
 
 // pickNext chooses who performs the next visible operation. cur is the
 // goroutine that just parked (nil if it terminated).
+//
+// Base schedule: non-pre-emptive, FIFO run queue (the current goroutine keeps
+// running while it can; when it blocks the longest-runnable goroutine goes).
+// Deviations ("delays", Emmi/Qadeer/Rakamaric 2011): at any scheduling point the
+// goroutine that would run can be moved to the back of the queue, at a cost of
+// one unit of the bound B.Preempt. Pre-empting the current goroutine is the
+// special case of delaying it.
 func (r *Run) pickNext(cur *G) *G {
-	curEnabled := cur != nil && (cur.op.completed || cur.op.enabled())
-	others := r.enabledGs(cur)
-	// optional environment events (timers) are modelled as pseudo options
-	evs := r.env.optionalEvents(r)
-	if curEnabled {
-		n := 1
-		if r.preemptions < r.B.Preempt {
-			n += len(others) + len(evs)
+	r.visibleOps++
+	r.refreshRunq()
+	if cur != nil && r.isEnabled(cur) {
+		// current first
+		for i, x := range r.runq {
+			if x == cur {
+				r.runq = append(append([]*G{cur}, r.runq[:i]...), r.runq[i+1:]...)
+				break
+			}
 		}
-		if n == 1 {
-			return cur
-		}
-		k := r.choose("sched", n)
-		if k == 0 {
-			return cur
-		}
-		r.preemptions++
-		k--
-		if k < len(others) {
-			r.logSched(others[k], "preempt")
-			return others[k]
-		}
-		evs[k-len(others)].fire(r)
-		return r.pickNext(cur)
 	}
-	n := len(others)
+	evs := r.env.optionalEvents(r)
+	n := len(r.runq)
 	if n == 0 {
-		// mandatory environment events first (deliveries), then optional ones
 		if ev := r.env.mandatoryEvent(r); ev != nil {
 			ev.fire(r)
 			return r.pickNext(cur)
 		}
 		return nil
 	}
-	k := r.choose("sched", n)
-	r.logSched(others[k], "switch")
-	return others[k]
+	// number of delays affordable here
+	maxDelay := r.B.Preempt - r.deviations
+	if maxDelay > n-1 {
+		maxDelay = n - 1
+	}
+	if maxDelay < 0 {
+		maxDelay = 0
+	}
+	opts := 1 + maxDelay
+	// optional environment events (timer firings) are further options while their budget lasts
+	k := 0
+	if opts+len(evs) > 1 {
+		k = r.choose("sched", opts+len(evs))
+	}
+	if k >= opts {
+		evs[k-opts].fire(r)
+		return r.pickNext(cur)
+	}
+	if k > 0 {
+		r.deviations += k
+		// move the k delayed goroutines to the back
+		r.runq = append(append([]*G{}, r.runq[k:]...), r.runq[:k]...)
+	}
+	next := r.runq[0]
+	if next != cur {
+		why := "switch"
+		if k > 0 {
+			why = fmt.Sprintf("delay*%d", k)
+		}
+		r.logSched(next, why)
+	}
+	return next
 }
 
 func (r *Run) logSched(g *G, why string) {
@@ -513,10 +550,7 @@ func (g *G) selectCases(cases []*selCase, hasDefault bool) (int, Value, bool) {
 		}
 		panic("select: resumed while not enabled")
 	}
-	k := 0
-	if len(rd) > 1 {
-		k = r.choose("select", len(rd))
-	}
+	k := r.deviate("select", len(rd))
 	i := rd[k]
 	c := cases[i]
 	if c.isSend {
@@ -656,4 +690,19 @@ func stack() string {
 	buf := make([]byte, 1<<14)
 	n := runtimeStack(buf)
 	return string(buf[:n])
+}
+
+// deviate picks among n alternatives where alternative k costs k units of the
+// deviation bound (0 is the default and free).
+func (r *Run) deviate(kind string, n int) int {
+	max := r.B.Preempt - r.deviations
+	if max > n-1 {
+		max = n - 1
+	}
+	if max <= 0 {
+		return 0
+	}
+	k := r.choose(kind, max+1)
+	r.deviations += k
+	return k
 }
